@@ -163,6 +163,9 @@ def data_fine_stream(props, name="data-fine-grained-exploration"):
         R0 = C.rng("conc-data-fine")
         res = Result(name)
         n = {"quick": 500, "search": 1500, "thorough": 8000}[tier]
+        import extract
+        focus = sorted(extract.changed_functions())      # functions whose structure differs from the recorded skeleton
+        res.distribution["focus_functions"] = len(focus)
         for i in range(n):
             seed = R0.getrandbits(48)
             R = random.Random(seed)
@@ -183,6 +186,11 @@ def data_fine_stream(props, name="data-fine-grained-exploration"):
                 scn["fine_p"] = R.choice([0.02, 0.05, 0.1])
                 choose = make_pct_chooser(SR, choices)
                 res.distribution["pct_runs"] += 1
+            if focus and i % 4 != 0:
+                # the source's structure changed there: preempt at (nearly) every line of those functions, rarely elsewhere
+                scn["fine_focus"] = focus
+                scn["fine_p"] = R.choice([0.01, 0.03])
+                res.distribution["focused_runs"] += 1
             run = CD.run_real(scn, choose)
             A = CD.analyse(run)
             res.evaluations += 1
